@@ -113,6 +113,39 @@ Theorem C09_inflight_sequential_partial : forall k,
 Proof. exact inflight_sequential_ok. Qed.
 Print Assumptions C09_inflight_sequential_partial.
 
+(* ---- the in-flight set across a HISTORY of offers (receiver-side schedule model rx_step: OFFER / goroutine marks /
+   transfer ends and un-marks exactly the keys THAT transfer accepted).  The known finding above is about the mark being SET
+   late; these theorems are about it being KEPT: once a key is marked it stays marked, whatever other offers are made,
+   accepted and finished in between, until a transfer that accepted it ends - so every OFFER of it in between is answered
+   InboundTransferInProgress; and it is cleared when that transfer ends. *)
+Theorem C09_inflight_mark_kept : forall sync k evs s,
+  mem_bytes k (rx_marked s) = true -> no_owner_ends k sync s evs = true ->
+  mem_bytes k (rx_marked (fold_left (rx_step sync) evs s)) = true.
+Proof. exact mark_preserved_history. Qed.
+Print Assumptions C09_inflight_mark_kept.
+
+Theorem C09_inflight_key_declined_throughout : forall sync k evs s keys,
+  mem_bytes k (rx_marked s) = true -> no_owner_ends k sync s evs = true ->
+  match rx_accepted (rx_step sync (fold_left (rx_step sync) evs s) (EvOffer keys)) with
+  | acc :: _ => mem_bytes k acc = false | [] => False end.
+Proof. exact inflight_history_declines. Qed.
+Print Assumptions C09_inflight_key_declined_throughout.
+
+Theorem C09_inflight_mark_cleared_at_end : forall sync s n ks k,
+  nth_error (rx_pending s) n = Some ks -> mem_bytes k ks = true ->
+  mem_bytes k (rx_marked (rx_step sync s (EvTransferEnds n))) = false.
+Proof. exact mark_cleared_at_end. Qed.
+Print Assumptions C09_inflight_mark_cleared_at_end.
+
+(* the three-offer scenario the harness plays on the real code (newest offer first): O1 [K] accepted and stalled, O2 [K;L]
+   -> [in progress; accepted] and finished, O3 [K] -> in progress, O1 finishes, O4 [K] -> accepted *)
+Theorem C09_three_offer_scenario :
+  rx_accepted (rx_run false [EvOffer [[x01]]; EvGoroutineRuns 0; EvOffer [[x01]; [x02]]; EvGoroutineRuns 1;
+                             EvTransferEnds 1; EvOffer [[x01]]; EvTransferEnds 0; EvOffer [[x01]]])
+  = [[[x01]]; []; [[x02]]; [[x01]]].
+Proof. exact three_offer_scenario. Qed.
+Print Assumptions C09_three_offer_scenario.
+
 Example C09_nonvacuous :
   let nv := {| nv_nilid := fun _ => false; nv_inrange := fun k => negb (bytes_eqb k [x03]);
                nv_stored := fun k => bytes_eqb k [x02]; nv_inflight := fun _ => false; nv_queue_room := true |} in
